@@ -201,7 +201,7 @@ class SmoothL1ImageLoss(NormalizedPairwiseImageLoss):
 
     def forward(self, source: Tensor, target: Tensor, mask: Optional[Tensor] = None) -> Tensor:
         r"""Evaluate image dissimilarity loss."""
-        return L.smooth_l1_loss(source, target, mask=mask, norm=self.norm)
+        return L.smooth_l1_loss(source, target, mask=mask, norm=self.norm, beta=self.beta)
 
 
 class L2ImageLoss(NormalizedPairwiseImageLoss):
